@@ -13,6 +13,11 @@ name replaced by its index in Gen/GenNetworks.v:all_networks and without the <sh
       w~single~targets~fee~fpk~minc~maxu~keys~acct~lt~rbf~o1~o2~bc~pk            sweep
       u~via~acct~rescan~listing      utxos_update through the provider (via p) or the utxos= argument (via x)
       a~id:value:conf:key            utxo_add            r   re-open the wallet
+      d~pos~via                      transaction_delete (via w) / WalletTransaction.delete (via o) of the transaction that
+                                     operation number pos of this history broadcast
+    outs of c / s: scripthex:amount:change[:form]   form = how + hex(utf8 text): the amount is handed over as value string
+      (s) / Value object (v) in the tuple, as value string / Value / int inside an Output object (S / V / I), as float (f);
+      amount = the exact number of smallest units the text denotes (the model gets it; the oracle recomputes it from the text)
       b~fee~extra~bc                 WalletTransaction.bumpfee on the transaction returned by the last s / w
     inputs = N | - | id:shape:key:claim,...  shape 2 (txid,n) 3 (+key_id) 4 (+value) a (+address) o (Input object);
     key = N | X (a key id that does not exist) | index; keys = - | i<index> | l<index>,...; acct = N | 0 | 1;
@@ -41,13 +46,21 @@ ASSUMPTIONS = [
     'binary64 expressions (fee = int(size/1000.0*fee_per_kb), rate, dirichlet change split, 10 % re-creation test) are '
     'modelled exactly on rationals with round-to-nearest-even to 53 bits; exponent range (overflow/subnormal), '
     'numpy int64 wrap-around (amounts >= 2^63) and vsize = 0 are not modelled',
+    'environment stub random.shuffle (adapter): positions of inputs/outputs are shuffled by the real generator, outputs to '
+    'change keys keep their key order among themselves, so the own output rows of a broadcast transaction are stored in '
+    'change-key order (the model inserts them in that order; with the free order a later selection cutting through rows of '
+    'equal confirmations differed: VERIF_SEED=2 history, present before this round)',
     'oracle inputs of the model (quantified universally in the theorems): Service.estimatefee answers, '
     'random.randint draws, dirichlet weights; the constant 1.03**5 / 0.03**5 of bumpfee is passed as its binary64 value',
     'bump cases: the state of the transaction before bumpfee (inputs, outputs, fee, signed vsize) is reported by the '
     'real code and passed to the model; signature sizes are not modelled',
     'modelled, not verified: the random shuffle of inputs/outputs (compared as multisets), address/script encoding, '
-    'signing, value_to_satoshi for non-integer amounts, key derivation for change keys (change outputs are c<i> = i-th '
-    'change key), uncompressed keys, wallets mixing witness types',
+    'signing, key derivation for change keys (change outputs are c<i> = i-th '
+    'change key), uncompressed keys, wallets mixing witness types; value_to_satoshi (amounts given as value strings, Value '
+    'objects, whole floats, inside tuples or Output objects) is not modelled as float code: the model is handed the EXACT '
+    'number of smallest units the text denotes (decimal arithmetic of the harness), so correspondence and oracle both require '
+    'exact normalisation; denominator symbols with a recorded C17 float class are used only below 10^10 units and a '
+    'mismatch there is excused as that C17 finding (class decision imported from harness/props/c17.py)',
     'domain: number_of_change_outputs >= 0 (negative values give Err EDomain in the model)',
     'histories (request kind hist, coq/Model/TxCreateHistory.v): the state is the database content (output rows in insertion '
     'order with key / account / transaction-row attributes, inputs of stored wallet transactions); the provider listing of '
@@ -59,13 +72,20 @@ ASSUMPTIONS = [
     'transaction id computed by the adapter itself, getutxos answers the whole listing of the round at the first question '
     '(so the insertion order is the listing order), blockcount is the number named in the request; a transaction is pushed '
     'iff broadcast was requested and all private keys were at hand (wallet keys or priv_keys)',
+    'histories, transaction_delete / WalletTransaction.delete (op d): names an earlier operation of the history; the model '
+    'identifies the stored transaction by the serial reserved at its broadcast; two or more stored transactions may refer to '
+    'the same output (explicit input lists); storing a transaction without broadcasting it (WalletTransaction.store, '
+    'transaction_import) is not modelled',
     'histories, domain: input_key_id names keys of the requested account; recipients are never keys of the wallet; an '
     'unknown outpoint is named with the same claimed value wherever it occurs; multisig wallets: no account 1, fee bumps and '
     'unknown-outpoint inputs only while the corresponding known classes are recorded',
 ]
 RULE = ('real wallets (sqlite copy per case) x random UTXO views x requests; streams: histories on one wallet (broadcast -> '
         'utxos_update/utxo_add/reopen/bumpfee -> further creations; explicit inputs in every accepted shape with disagreeing '
-        'key/value; send/send_to/sweep with every argument non-default on UTXO sets with a decoy), calculate_fee '
+        'key/value; send/send_to/sweep with every argument non-default on UTXO sets with a decoy; recipient amounts as int / '
+        'whole float / value string with every common denominator / Value object, in tuples and Output objects, near the '
+        'rounding boundaries of the binary quotient by 1e-8; conflicting stored transactions spending the same output, '
+        'deleted in both orders with listings / re-opening / fee bumps in between, then creations), calculate_fee '
         'boundary/random, select_inputs, transaction_create, send, sweep, bumpfee; a case is non-trivial when the '
         'implementation returns a transaction; distinct by request')
 
@@ -646,6 +666,18 @@ def _known(cid):
 
 KNOWN_CLASSES = {cid: _known(cid) for cid in ('explicit_inputs_unchecked', 'fee_rate_checked_on_estimate',
                                                'explicit_input_not_in_wallet', 'bumpfee_replacement_unverified')}
+
+
+# amounts written with a denominator symbol whose binary-float conversion is a recorded finding of C17 (den_<symbol>):
+# the class decision is the one of harness/props/c17.py (symbol of the amount text + status of the C17 entry); such an
+# amount being off is that finding, not a new one of this property
+def _c17_den(c, io, mo):
+    tags = set(x[0] for x in violated(c, io))
+    return bool(tags) and tags <= {'amount_den_known'}
+
+
+KNOWN_CLASSES['c17_denominator_float'] = _c17_den
+DOMAIN_CLASSES = ('c17_denominator_float',)
 
 
 def reproduce_known(entry, rundir):
